@@ -375,11 +375,34 @@ impl GlueRatio {
         (self.num.0 as f32) / (self.den.0 as f32)
     }
 
+    /// Parses a glue ratio written as a decimal number, e.g. `0.6564` or `20000.0`.
+    ///
+    /// A glue ratio is not a dimension: [`GlueRatio`]'s `Display` (like TeX.2021.186) writes
+    /// ratios up to `20000.0`, which is above the largest dimension (`16383.99998pt`), so the
+    /// number is read with the full range of a scaled number rather than with
+    /// [`common::Scaled::parse_from_string`].
     pub fn from_float_str(s: &str) -> Option<Self> {
-        let s = format!("{s}pt");
-        let num = common::Scaled::parse_from_string(&s).ok()?;
+        let (neg, value_str) = match s.strip_prefix('-') {
+            Some(value_str) => (true, value_str),
+            None => (false, s),
+        };
+        let (int_str, frac_str) = match value_str.find('.') {
+            Some(pos) => (&value_str[..pos], &value_str[pos + 1..]),
+            None => (value_str, ""),
+        };
+        let integer_part: i32 = int_str.parse().ok()?;
+        let frac_digits: Option<Vec<u8>> = frac_str
+            .chars()
+            .map(|c| c.to_digit(10).map(|d| d as u8))
+            .collect();
+        let fractional_part = common::Scaled::from_decimal_digits(&frac_digits?);
+        let num = (integer_part as i64) * (common::Scaled::ONE.0 as i64) + (fractional_part.0 as i64);
+        if num.abs() > i32::MAX as i64 {
+            return None;
+        }
+        let num = common::Scaled(num as i32);
         Some(Self {
-            num,
+            num: if neg { -num } else { num },
             den: common::Scaled::ONE,
         })
     }
